@@ -165,6 +165,8 @@ func authClass(a string) string {
 	switch strings.ToLower(stripPort(a)) {
 	case hostA:
 		return "a"
+	case hostC:
+		return "c"
 	case "b.example.com":
 		return "b(under-wildcard,not-in-registry)"
 	case hostD1:
@@ -270,6 +272,10 @@ func runCase(t *testing.T, res *engine.Result, c caseSpec, verbose bool) {
 					res.Count("disagreements_inside_a_virtual_host_reported_for_rule_order", 1)
 					continue
 				}
+				pk := p.Kind
+				if c.Shape == shapeG2 {
+					pk = "gateway(" + c.gatewayFor(strings.ToLower(stripPort(req.Authority))) + ")"
+				}
 				// label the disagreement: prefer the reading under which the reference picks the very
 				// rule Envoy picked (then only the action differs)
 				// (otherwise the reading that agrees with the generated table on most requests of this
@@ -332,20 +338,20 @@ func runCase(t *testing.T, res *engine.Result, c caseSpec, verbose bool) {
 				switch {
 				case gotRule != "" && rep.Why == gotRule:
 					// same rule, different action
-					key = fmt.Sprintf("action|%s:%d|%s|want=%s|got=%s", p.Kind, l.Port, rep.ActionName, rep.Decision, got.Decision)
+					key = fmt.Sprintf("action|%s:%d|%s|want=%s|got=%s", pk, l.Port, rep.ActionName, rep.Decision, got.Decision)
 				case gotRule == "" && gotDesc != "none(vhost)":
 					// the VirtualService's virtual host was not reached at all (or one was reached that should not exist)
 					if wantClass == "rule" || wantClass == "none" {
 						wantClass = "virtual-service"
 					}
-					key = fmt.Sprintf("vhost|%s:%d|svc=%v|auth=%s|want=%s|got=%s", p.Kind, l.Port, c.Svc, authClass(req.Authority), wantClass, gotDesc)
+					key = fmt.Sprintf("vhost|%s:%d|svc=%v|auth=%s|want=%s|got=%s", pk, l.Port, c.Svc, authClass(req.Authority), wantClass, gotDesc)
 				default:
 					// name the match shape that misbehaves: the generated route that took a request its
 					// rule does not cover (over-match), else the rule whose request was not taken (under-match)
 					if gotRule != "" && (rep.MatchName == "" || !sameVS(rep.Why, gotRule) || ruleBefore(gotRule, rep.Why)) {
-						key = fmt.Sprintf("selection|%s:%d|over-match|%s", p.Kind, l.Port, dropVS(gotDesc))
+						key = fmt.Sprintf("selection|%s:%d|over-match|%s", pk, l.Port, dropVS(gotDesc))
 					} else {
-						key = fmt.Sprintf("selection|%s:%d|under-match|%s", p.Kind, l.Port, dropVS(wantDesc))
+						key = fmt.Sprintf("selection|%s:%d|under-match|%s", pk, l.Port, dropVS(wantDesc))
 					}
 				}
 				var alts []string
@@ -498,7 +504,11 @@ func (c caseSpec) checkOrder(res *engine.Result, p proxySpec, l listenerSpec, rc
 				at = matchAlphabet[v.Rules[i].Match].Name
 			}
 		}
-		key := fmt.Sprintf("order|%s:%d|%s|at=%s", p.Kind, l.Port, parts[0], at)
+		pk := p.Kind
+		if c.Shape == shapeG2 {
+			pk = "gateway(" + p.Gateway + ")"
+		}
+		key := fmt.Sprintf("order|%s:%d|%s|at=%s", pk, l.Port, parts[0], at)
 		desc := fmt.Sprintf("case {%s}; %s listener %d; virtual host %q of %s has routes %v: %s", c, p.Kind, l.Port, vh.GetName(), vsn, gotNames, why)
 		res.Violate(key, desc, replayC12{Case: c, Proxy: p.Kind, Port: l.Port})
 		if verbose {
@@ -589,7 +599,10 @@ func enumerate(thorough bool) (cases []caseSpec, spaces map[string]int) {
 		cases = append(cases, c)
 		spaces[space]++
 	}
-	nM := len(matchAlphabet)
+	nM := 0 // the alternatives that name the second Gateway (appended last) only occur in shape G2
+	for nM < len(matchAlphabet) && !matchAlphabet[nM].G2Only {
+		nM++
+	}
 	nA := quickActions
 	if thorough {
 		nA = len(actionAlphabet)
@@ -673,7 +686,7 @@ func enumerate(thorough bool) (cases []caseSpec, spaces map[string]int) {
 	ms := coreMatches()
 	if thorough {
 		ms = ms[:0]
-		for i := range matchAlphabet {
+		for i := 0; i < nM; i++ {
 			ms = append(ms, i)
 		}
 	}
@@ -692,6 +705,63 @@ func enumerate(thorough bool) (cases []caseSpec, spaces map[string]int) {
 				}
 				if thorough {
 					add("triple", caseSpec{Shape: shapeW, Svc: false, DR: true, Bind: bindBoth, Rules: rules})
+				}
+			}
+		}
+	}
+
+	// (4) two Gateways of one workload on one port, ONE VirtualService bound to both (shape G2): rule
+	//     lists of length 1..3 over the G2 alphabet (rules restricted to gw, to gw2, to both, to neither),
+	//     both age orders of the Gateways; thorough adds all action pairs and the pairs of a
+	//     second-Gateway alternative with every other match.
+	var g2, g2only []int
+	for i, m := range matchAlphabet {
+		if m.G2 {
+			g2 = append(g2, i)
+		}
+		if m.G2Only {
+			g2only = append(g2only, i)
+		}
+	}
+	g2case := func(first bool, rules ...ruleSpec) caseSpec {
+		return caseSpec{Shape: shapeG2, Svc: true, DR: true, Bind: bindBoth, Rules: rules, Gw2First: first}
+	}
+	for _, first := range bools {
+		for _, m1 := range g2 {
+			for a := 0; a < quickActions; a++ {
+				add("g2-single", g2case(first, ruleSpec{m1, a}))
+			}
+			for _, m2 := range g2 {
+				ra1 := m1 % quickActions
+				ra2 := (ra1 + 1 + m2%(quickActions-1)) % quickActions
+				if !thorough {
+					add("g2-pair", g2case(first, ruleSpec{m1, ra1}, ruleSpec{m2, ra2}))
+				} else {
+					for a1 := 0; a1 < quickActions; a1++ {
+						for a2 := 0; a2 < quickActions; a2++ {
+							if a1 != a2 {
+								add("g2-pair", g2case(first, ruleSpec{m1, a1}, ruleSpec{m2, a2}))
+							}
+						}
+					}
+				}
+				if first && !thorough {
+					continue
+				}
+				for _, m3 := range g2 {
+					rot := (m1 + m2 + m3) % quickActions
+					add("g2-triple", g2case(first, ruleSpec{m1, rot}, ruleSpec{m2, (rot + 1) % quickActions}, ruleSpec{m3, (rot + 2) % quickActions}))
+				}
+			}
+		}
+		if thorough {
+			for _, m1 := range g2only {
+				for m2 := 0; m2 < nM; m2++ {
+					if matchAlphabet[m2].G2 {
+						continue
+					}
+					add("g2-pair", g2case(first, ruleSpec{m1, 0}, ruleSpec{m2, 3}))
+					add("g2-pair", g2case(first, ruleSpec{m2, 3}, ruleSpec{m1, 0}))
 				}
 			}
 		}
@@ -719,6 +789,7 @@ func TestC12(t *testing.T) {
 
 	cases, spaces := enumerate(env.Thorough())
 	res.Bounds["match_alphabet"] = len(matchAlphabet)
+	res.Bounds["two_gateway_shape"] = "G2: one VirtualService [a.example.com, c.example.com] bound to Gateways gw (serves a.example.com) and gw2 (serves c.example.com), same workload, same port 80; gateway proxy only"
 	res.Bounds["action_alphabet"] = map[bool]int{false: quickActions, true: len(actionAlphabet)}[env.Thorough()]
 	res.Bounds["host_shapes"] = shapeNames
 	res.Bounds["cases_total"] = len(cases)
